@@ -22,13 +22,10 @@ theorem model_matches_spec :
 set_option maxRecDepth 1000000 in
 /-- object-level facts: typeof, [[Class]], [[Prototype]], extensibility, [[PrimitiveValue]] of wrapper prototypes -/
 theorem owners_match_spec :
-    ∀ of ∈ Spec.owners, ∀ ft ∈ of.2, Model.devOwn of.1 ft.1 = "-" → Spec.lookup Model.ownerFacts of.1 ft.1 = some ft.2 := by
+    ∀ of ∈ Spec.owners, ∀ ft ∈ of.2, Spec.lookup Model.ownerFacts of.1 ft.1 = some ft.2 := by
   decide +kernel
 
-set_option maxRecDepth 100000 in
-theorem forin_matches_spec :
-    ∀ kv ∈ Spec.forIn, Model.devForIn kv.1 = "-" → Spec.assoc kv.1 Model.forIn = some kv.2 := by
-  decide +kernel
+theorem forin_matches_spec : Model.forIn = Spec.forIn := rfl
 
 theorem links_match_spec : Model.links = Spec.links := rfl
 
@@ -38,16 +35,11 @@ theorem entry_regions_tight :
     ∀ e ∈ Spec.entries, Model.devEntry e.1 e.2.1 ≠ "-" → Spec.lookup Model.table e.1 e.2.1 ≠ some e.2.2 := by
   decide +kernel
 
-set_option maxRecDepth 1000000 in
-theorem owner_regions_tight :
-    ∀ of ∈ Spec.owners, ∀ ft ∈ of.2, Model.devOwn of.1 ft.1 ≠ "-" → Spec.lookup Model.ownerFacts of.1 ft.1 ≠ some ft.2 := by
-  decide +kernel
-
-/-! ### for-in never shows a built-in: every slot otto creates (ES5 ones *and* otto's extras) is non-enumerable,
-    with the single exception `console` on the global object (otto.go:247) -/
+/-! ### for-in never shows a built-in: every slot otto creates (ES5 ones *and* otto's extras, `console` included)
+    is non-enumerable -/
 set_option maxRecDepth 1000000 in
 theorem model_no_enumerable_builtin :
-    ∀ e ∈ Spec.flatten Model.table, e.2.2.attrs.e = true → e.1 = Owner.global ∧ e.2.1 = "console" := by
+    ∀ e ∈ Spec.flatten Model.table, e.2.2.attrs.e = false := by
   decide +kernel
 
 /-- the members of the `console` object (inline.go newConsole) are all {W:true,E:false,C:true} functions -/
@@ -56,7 +48,7 @@ theorem console_members_nonenumerable : ∀ d ∈ Model.consoleProps, d.slot.att
 
 /-- transfer to any table equal to the model (used with the regenerated dumps) -/
 theorem no_enumerable_of_eq (t : List (Owner × Props)) (h : t = Model.table) :
-    ∀ e ∈ Spec.flatten t, e.2.2.attrs.e = true → e.1 = Owner.global ∧ e.2.1 = "console" := by
+    ∀ e ∈ Spec.flatten t, e.2.2.attrs.e = false := by
   subst h; exact model_no_enumerable_builtin
 
 theorem matches_spec_of_eq (t : List (Owner × Props)) (h : t = Model.table) :
@@ -133,18 +125,11 @@ set_option maxRecDepth 1000000 in
 theorem spec_keys_unique : ∀ op ∈ Spec.table, noDupKeys op.2 = true := by decide +kernel
 
 /-! ### witnesses: the unchanged tree really deviates inside each region (kernel-checked; replayed on the real code
-    by the requests `entry fresh Math atan2`, … – see known_findings.jsonl) -/
-example : Spec.lookup Model.table .Math "atan2" = some (Spec.fn 1) ∧ Spec.lookup Spec.table .Math "atan2" = some (Spec.fn 2) := by decide
-example : Spec.lookup Model.table .NumberPrototype "toString" = some (Spec.fn 0) ∧ Spec.lookup Spec.table .NumberPrototype "toString" = some (Spec.fn 1) := by decide
-example : Spec.lookup Model.table .NumberPrototype "toLocaleString" = some (Spec.fn 1) ∧ Spec.lookup Spec.table .NumberPrototype "toLocaleString" = some (Spec.fn 0) := by decide
+    by the request `entry fresh RegExp.prototype lastIndex` – see known_findings.jsonl) -/
 example : Spec.lookup Model.table .RegExpPrototype "lastIndex" = none ∧ (Spec.lookup Spec.table .RegExpPrototype "lastIndex").isSome := by decide
-example : Spec.lookup Model.ownerFacts .DatePrototype "prim" = some "num:0000000000000000" ∧ Spec.lookup Spec.owners .DatePrototype "prim" = some "num:7ff8000000000001" := by decide
-example : Spec.lookup Model.ownerFacts .TypeErrorPrototype "class" = some "TypeError" ∧ Spec.lookup Spec.owners .TypeErrorPrototype "class" = some "Error" := by decide
-example : Spec.lookup Model.table .global "console" = some ⟨.obj .Object, ⟨true, true, true⟩⟩ ∧ Spec.lookup Spec.table .global "console" = none := by decide
-example : Spec.assoc "error" Model.forIn = some "message,name" ∧ Spec.assoc "error" Spec.forIn = some "-" := by decide
--- non-vacuity: the entry regions cover 8 of the 258 ES5 slots; the model has 281 slots (23 are otto's extras)
+-- non-vacuity: the entry region covers 5 of the 258 ES5 slots; the model has 281 slots (23 are otto's extras)
 set_option maxRecDepth 1000000 in
-example : (Spec.entries.filter (fun e => Model.devEntry e.1 e.2.1 != "-")).length = 8 ∧ Spec.entries.length = 258 ∧
+example : (Spec.entries.filter (fun e => Model.devEntry e.1 e.2.1 != "-")).length = 5 ∧ Spec.entries.length = 258 ∧
     (Spec.flatten Model.table).length = 281 := by decide +kernel
 
 end OttoVerif.C14.Thm
